@@ -7,6 +7,7 @@ import (
 	"fmt"
 	"reflect"
 	"time"
+	_ "time/tzdata"
 
 	"github.com/beevik/etree"
 	saml2 "github.com/russellhaering/gosaml2"
@@ -74,6 +75,28 @@ func runC19(c *mon.Ctx) {
 			kcs = append(kcs, k)
 		}
 	}
+	// daylight-saving transitions of a few real zones within two years of the base instant
+	type dstT struct {
+		t   time.Time
+		loc *time.Location
+	}
+	var dstInstants []dstT
+	for _, name := range []string{"America/New_York", "Europe/Berlin", "Australia/Sydney", "America/Sao_Paulo", "Pacific/Chatham", "Africa/Cairo"} {
+		loc, err := time.LoadLocation(name)
+		if err != nil {
+			continue
+		}
+		_, prev := base.In(loc).Zone()
+		for t := base; t.Before(base.AddDate(2, 0, 0)); t = t.Add(6 * time.Hour) {
+			if _, off := t.In(loc).Zone(); off != prev {
+				dstInstants = append(dstInstants, dstT{t, loc})
+				prev = off
+			}
+		}
+	}
+	if c.Shard == 0 {
+		c.Count("dst_transitions_available", int64(len(dstInstants)))
+	}
 	n := c.N(1500, 60000)
 	for k := 0; k < n; k++ {
 		cs := c.Begin("metadata", k)
@@ -83,7 +106,13 @@ func runC19(c *mon.Ctx) {
 		r := cs.Rand()
 		kc := kcs[k%len(kcs)]
 		zone := time.FixedZone("z", (r.IntN(27)-12)*3600)
-		now := base.Add(time.Duration(r.IntN(86400)) * time.Second).Add(time.Duration(r.IntN(1e9))).In(zone)
+		now := base.Add(time.Duration(r.IntN(400*86400)) * time.Second).Add(time.Duration(r.IntN(1e9))).In(zone)
+		if len(dstInstants) > 0 && r.IntN(3) == 0 {
+			// a clock in a real zone shortly before a daylight-saving change (validity must still be exact hours)
+			d := dstInstants[r.IntN(len(dstInstants))]
+			now = d.t.Add(-time.Duration(r.Int64N(int64(7 * 24 * time.Hour)))).Add(time.Duration(r.IntN(1e9))).In(d.loc)
+			zone = d.loc
+		}
 		w := NewWorld(base)
 		signer := w.IdP[2]
 		ksp := NewKeyedSP(base, kc, signer)
@@ -97,7 +126,7 @@ func runC19(c *mon.Ctx) {
 		sp.AssertionConsumerServiceURL = acs
 		sp.ServiceProviderSLOURL = o.draw(r, SLO, true)
 		hours := c19Hours[(k/len(kcs))%len(c19Hours)]
-		cs.Desc("keys=%s hours=%d zone=%s sign=%v skip=%v classes=%v", kc, hours, now.Format("-07:00"), sp.SignAuthnRequests, sp.SkipSignatureValidation, o.Classes)
+		cs.Desc("keys=%s hours=%d zone=%s/%s sign=%v skip=%v classes=%v", kc, hours, zone.String(), now.Format("-07:00"), sp.SignAuthnRequests, sp.SkipSignatureValidation, o.Classes)
 		var md, md2 *types.EntityDescriptor
 		var err, err2 error
 		pv, stack := mon.Guard(func() {
